@@ -75,6 +75,9 @@ def judge(src, result, settings):
         def bad(what):
             pb = {"what": what, "code": cname, "lineno": lineno, "col": col,
                   "text": re.sub(r"0x[0-9a-f]+", "0x?", desc)[-600:]}
+            if what == "internal_error":
+                m = re.search(r"Internal error: (\w+)", desc)
+                pb["exc_type"] = m.group(1) if m else ""
             if what == "column-outside-line":
                 ln = lines[lineno - 1]
                 raw = ln.encode("utf-8")
@@ -171,6 +174,24 @@ def value_universe(rng):
         MultiValuedValue([KnownValue(i) for i in range(11)] + [KnownValue([1])]),
         # unhashable literals
         KnownValue([]), KnownValue({}), KnownValue(set()), KnownValue([[1], {2: 3}]), KnownValue(bytearray(b"x")), KnownValue(({}, [])),
+    ]
+    # the remaining Value classes (the ones get_boolability has no branch for, and the rarer ones)
+    from pyanalyze.signature import ActualArguments
+    from pyanalyze.stacked_scopes import Composite
+
+    alias = V.TypeAlias(lambda: TypedValue(int), lambda: ())
+    galias = V.TypeAlias(lambda: GenericValue(list, [TypeVarValue(T)]), lambda: (T,))
+    atoms += [
+        V.TypeAliasValue("IntAlias", "mod", alias), V.TypeAliasValue("ListAlias", "mod", galias, (TypedValue(str),)),
+        V.SyntheticModuleValue(("collections", "abc")), V.SyntheticModuleValue(()),
+        V.UnboundMethodValue("append", Composite(TypedValue(list))), V.UnboundMethodValue("keys", Composite(KnownValue({})), "asynq"),
+        V.CallValue(ActualArguments(positionals=[(True, Composite(TypedValue(int)))], star_args=None, keywords={"k": (True, Composite(KnownValue(1)))},
+                                    star_kwargs=None, kwargs_required=False, pos_or_keyword_params=frozenset())),
+        V.KnownValueWithTypeVars(len, {T: TypedValue(int)}), V.VariableNameValue(["uid"]),
+        V.AsyncTaskIncompleteValue(__import__("asynq").AsyncTask, TypedValue(int)),
+        UnpackedValue(SequenceValue(tuple, [(True, TypedValue(int))])),
+        AnnotatedValue(TypedValue(int), [V.TypeIsExtension(TypedValue(bool)), V.TypeGuardExtension(TypedValue(str))]),
+        SubclassValue(TypeVarValue(T)), GenericValue(dict, [TypeVarValue(T), TypeVarValue(U, bound=TypedValue(int))]),
     ]
 
     def gen(depth):
@@ -358,7 +379,7 @@ def dispatch_cases():
     inst = {
         "AnyValue": AnyValue(AnySource.explicit), "VoidValue": V.VOID, "TypeAliasValue": V.TypeAliasValue("X", "m", alias),
         "UninitializedValue": V.UNINITIALIZED_VALUE, "KnownValue": KnownValue(1), "KnownValueWithTypeVars": V.KnownValueWithTypeVars(len, {}),
-        "SyntheticModuleValue": V.SyntheticModuleValue(["a"]), "UnboundMethodValue": V.UnboundMethodValue("append", Composite(TypedValue(list))),
+        "SyntheticModuleValue": V.SyntheticModuleValue(("a",)), "UnboundMethodValue": V.UnboundMethodValue("append", Composite(TypedValue(list))),
         "TypedValue": TypedValue(int), "GenericValue": V.GenericValue(list, [TypedValue(int)]),
         "SequenceValue": V.SequenceValue(tuple, [(False, KnownValue(1))]), "DictIncompleteValue": V.DictIncompleteValue(dict, []),
         "TypedDictValue": V.TypedDictValue({"a": V.TypedDictEntry(TypedValue(int))}),
